@@ -45,17 +45,31 @@ fn shape_bases(number: u16, base: &[u8], limit: usize) -> Vec<Vec<u8>> {
             }
         }
         if control {
+            // all values giving a new typed shape, then an even spread of them (first, last and in between),
+            // so that large counts / long strings are represented and not only the smallest ones
+            let mut cands: Vec<Vec<u8>> = vec![];
             for v in crate::decode::alphabet(l, cur, l >= 24) {
                 set_bits(&mut payload, o as usize, l as usize, v);
                 let x = eng.run(&payload, PAYLOAD_MAX, &mut scratch, &|| json!(null));
                 if x.cls == Cls::Typed && shapes.insert(x.shape) {
                     let need = ((x.needed_bits + 7) / 8) as usize;
-                    out.push(payload[..need.min(PAYLOAD_MAX)].to_vec());
-                    if out.len() >= limit {
-                        set_bits(&mut payload, o as usize, l as usize, cur);
-                        return out;
-                    }
+                    cands.push(payload[..need.min(PAYLOAD_MAX)].to_vec());
                 }
+            }
+            let per_site = (limit / 2).max(3);
+            if cands.len() <= per_site {
+                out.extend(cands);
+            } else {
+                let n = cands.len();
+                let mut idx: Vec<usize> = (0..per_site).map(|i| i * (n - 1) / (per_site - 1)).collect();
+                idx.dedup();
+                for i in idx {
+                    out.push(cands[i].clone());
+                }
+            }
+            if out.len() >= limit * 2 {
+                set_bits(&mut payload, o as usize, l as usize, cur);
+                return out;
             }
         }
         set_bits(&mut payload, o as usize, l as usize, cur);
@@ -699,6 +713,26 @@ pub fn explore_base(rep: &mut Report, fl: &Flags, number: u16, base_name: &str, 
                         }
                     }
                     alts.push((format!("len{}(capacity{:+})", n, n as i64 - cap as i64), v));
+                }
+            }
+            // every element on the same satellite (per-satellite counters), at a few lengths up to the capacity
+            let has_sat = matches!(&items[0], VTree::Struct(_, f) if f.iter().any(|(k, _)| *k == "satellite_id"));
+            if has_sat {
+                for n in [31usize, 32, 33, 255, 256, 257, cap] {
+                    if n >= 1 && n <= cap {
+                        let mut v = items.clone();
+                        v.resize(n, items[0].clone());
+                        for it in v.iter_mut() {
+                            if let VTree::Struct(_, f) = it {
+                                for (k, x) in f.iter_mut() {
+                                    if *k == "satellite_id" {
+                                        *x = VTree::U8(1);
+                                    }
+                                }
+                            }
+                        }
+                        alts.push((format!("len{}-all-on-one-satellite", n), v));
+                    }
                 }
             }
             rep.outcome("list-capacity-found");
